@@ -1,5 +1,7 @@
 import TlsProofs.RsaDecrypt
 import TlsProofs.RsaServer
+import TlsProofs.RsaGen
+import TlsModel.Gen.RsaDecrypt
 /-
   C11 — RSA key transport gives an attacker no padding oracle.
 
@@ -12,6 +14,7 @@ import TlsProofs.RsaServer
 
   A ciphertext is *publicly valid* when it has exactly `k` bytes and encodes a number below `n`.
 -/
+set_option linter.unusedSimpArgs false
 namespace Tls.RsaDec
 open Tls.CT
 
@@ -251,6 +254,346 @@ example : Accepted (some (exPms 3 3 46)) (3, 3) (3, 1) := ⟨3, 3, List.replicat
 example : processClientKeyExchange exKey (exPrims exBadEM) exRand (3, 3) (3, 3) exCipher = .ok exRand ∧
     processClientKeyExchange exKey (exPrims exBadEM2) exRand (3, 3) (3, 3) (0 :: exCipher) = .ok exRand := by
   constructor <;> decide +kernel
+
+
+/-! ## The regenerated source (Tls.RsaDec.Gen) computes the hand-written model
+
+  `Tls.RsaDec.Gen.*` (TlsModel/Gen/RsaDecrypt.lean) is re-translated on every run from the Python
+  AST of tlslite/utils/rsakey.py and tlslite/keyexchange.py of the tree under check by
+  translate/gen_rsadecrypt.py, over the Python-runtime model TlsModel/PyInt.lean + PyExc.lean
+  (`selfOf K P cache` is the RSAKey object the hand model's key and primitives describe; `fuel`
+  bounds the `while` loop of `_dec_prf`).  The theorems `gen_*_eq` prove that what the source says
+  now computes the hand model; the corollaries restate the property theorems above about the
+  regenerated source text.  An edit of the decryption path changes the generated module and breaks
+  the corresponding obligation. -/
+section Regenerated
+open Tls.Py
+
+/-- `_raw_private_key_op_bytes` as the source has it now, for every key, message and cache state:
+    ValueError exactly when the hand model raises, else the same bytes. -/
+theorem gen_raw_private_key_op_bytes_eq (K : Key) (P : Prims) (cache : Option Bytes) (fuel : Nat) (msg : Bytes) :
+    Gen._raw_private_key_op_bytes fuel (selfOf K P cache) msg = liftR (rawPrivateKeyOpBytes K P msg) := by
+  unfold Gen._raw_private_key_op_bytes rawPrivateKeyOpBytes
+  simp only [bind, pure, selfOf_n, numBytes_nat, len_eq, bytesToNumber_eq, selfOf_priv, numberToByteArray_nat]
+  by_cases h1 : msg.length = K.k
+  · have h1' : ((msg.length : Int) = (numBytes K.n : Int)) := by unfold Key.k at h1; omega
+    by_cases h2 : beDecode msg ≥ K.n
+    · have h2' : ((beDecode msg : Int) ≥ (K.n : Int)) := by omega
+      simp [h1, h1', h2, h2', PyE.raise, liftR, PyErr.toE]
+    · have h2' : ¬ ((beDecode msg : Int) ≥ (K.n : Int)) := by omega
+      simp [h1, h1', h2, h2', liftR, Key.k]
+  · have h1' : ¬ ((msg.length : Int) = (numBytes K.n : Int)) := by unfold Key.k at h1; omega
+    simp [h1, h1', PyE.raise, liftR, PyErr.toE]
+
+/-- `_dec_prf` as the source has it now: for every key/label/output length, HMAC with 32-byte
+    output and every loop bound `fuel ≥ out_len / 8` the `while` loop ends within the bound and the
+    function returns (or raises ValueError for a length that is not a multiple of 8) what the hand
+    model's `decPrf` does. -/
+theorem gen_dec_prf_eq (K : Key) (P : Prims) (cache : Option Bytes) (fuel : Nat) (key label : Bytes) (outLen : Nat)
+    (h32 : ∀ k m, (P.hmac k m).length = 32) (hf : outLen / 8 ≤ fuel) :
+    Gen._dec_prf fuel (selfOf K P cache) key label (outLen : Int) = liftR (decPrf P.hmac key label outLen) := by
+  unfold Gen._dec_prf
+  simp only [bind, pure, selfOf_hmac, modLit_nat, fdivLit_nat]
+  by_cases h8 : outLen % 8 = 0
+  · have h8' : ¬ (((outLen % 8 : Nat) : Int) ≠ 0) := by omega
+    simp only [h8', decide_false, Bool.false_eq_true, if_false]
+    obtain ⟨o, ho, hd⟩ := decPrf_fuel P.hmac key label outLen fuel h32 hf h8
+    rw [bind_fst _ (fun o => Except.pure (slice o none (some ((outLen / 8 : Nat) : Int))))]
+    have hw := whileLoop_prf P.hmac key label outLen (outLen / 8)
+      (fun s0 => decide (len s0.fst < ((outLen / 8 : Nat) : Int)))
+      (fun s0 =>
+            Except.bind (PyE.numberToByteArray s0.snd 2) fun __do_lift =>
+              Except.bind (PyE.numberToByteArray (↑outLen) 2) fun __do_lift_1 =>
+                Except.pure (s0.fst ++ P.hmac key (__do_lift ++ label ++ __do_lift_1), s0.snd + 1))
+      (by intro out it; simp only [len_eq]; exact decide_eq_decide.mpr (by omega))
+      (by intro out it; simp only [numberToByteArray_nat2, ok_bind']; rfl)
+      fuel 0 []
+    rw [ho] at hw
+    rw [show ((0 : Nat) : Int) = 0 from rfl] at hw
+    rw [hw, hd, ok_bind', slice_to]
+    rfl
+  · have h8' : (((outLen % 8 : Nat) : Int) ≠ 0) := by omega
+    unfold decPrf
+    have h8n : ¬ ((outLen % 8 : Nat) : Int) = 0 := h8'
+    simp [h8, h8n, PyE.raise, liftR, PyErr.toE]
+    intro hz; omega
+
+
+/-! The ct_* helpers decrypt calls are the regenerated ones of TlsModel/Gen/CT.lean (C12's
+    translator); their equalities with the hand model are re-proved here so that a change of
+    constanttime.py is reported against the C11 obligation it breaks. -/
+theorem ct_lt_eq (a b : Nat) : Tls.CT.Gen.ct_lt_u32 a b = some (ctLtU32 a b : Int) := by
+  simp only [Tls.CT.Gen.ct_lt_u32, bind, pure, band_mask32_nat, band_sub_bv, bxor_bv, bor_bv, shr_bv, ctLtU32]
+theorem ct_lt10_eq (a : Nat) : Tls.CT.Gen.ct_lt_u32 a 10 = some (ctLtU32 a 10 : Int) := ct_lt_eq a 10
+theorem ct_lsb16_eq (v : Nat) : Tls.CT.Gen.ct_lsb_prop_u16 v = some (ctLsbPropU16 v : Int) := by
+  simp only [Tls.CT.Gen.ct_lsb_prop_u16, bind, pure, band_nat_one, shl_nat, bor_nat, ctLsbPropU16]
+theorem ct_lsb8_eq (v : Nat) : Tls.CT.Gen.ct_lsb_prop_u8 v = some (ctLsbPropU8 v : Int) := by
+  simp only [Tls.CT.Gen.ct_lsb_prop_u8, bind, pure, band_nat_one, shl_nat, bor_nat, ctLsbPropU8]
+theorem ct_nz_eq (v : Nat) : Tls.CT.Gen.ct_isnonzero_u32 v = some (ctIsNonZeroU32 v : Int) := by
+  simp only [Tls.CT.Gen.ct_isnonzero_u32, bind, pure, band_mask32_nat, band_neg_bv, bor_bv, shr_bv, ctIsNonZeroU32]
+theorem ct_neq_eq (a b : Nat) : Tls.CT.Gen.ct_neq_u32 a b = some (ctNeqU32 a b : Int) := by
+  simp only [Tls.CT.Gen.ct_neq_u32, bind, pure, band_mask32_nat, band_sub_bv, bor_bv, shr_bv, ctNeqU32]
+theorem ct_neq2_eq (a : Nat) : Tls.CT.Gen.ct_neq_u32 a 2 = some (ctNeqU32 a 2 : Int) := ct_neq_eq a 2
+
+/-- **`RSAKey.decrypt` as the source has it now computes the hand model**, for every ciphertext
+    (any length, any value), every key with `11 ≤ k < 65536` (k = byte length of the modulus: the
+    range in which PKCS#1 v1.5 encryption exists and the 16-bit masks are exact), HMAC with 32-byte
+    output, every loop bound `fuel ≥ max 256 k`, and a `_key_hash` cache that is absent, empty or
+    holds SHA-256 of the private exponent (what the function itself stores).  Covers: the public
+    checks and `try/except ValueError`, the cache, both `_dec_prf` calls, `length_mask`, the loop over
+    the 128 candidate lengths, the two `next()` checks, the separator scan, the constant-time
+    selection of start and of the returned bytes. -/
+theorem gen_decrypt_eq (K : Key) (P : Prims) (cache : Option Bytes) (fuel : Nat) (c : Bytes)
+    (h32 : ∀ k m, (P.hmac k m).length = 32) (hk : 11 ≤ K.k) (hk16 : K.k < 65536)
+    (hf : 256 ≤ fuel ∧ K.k ≤ fuel)
+    (hcache : cache = none ∨ cache = some [] ∨ cache = some (keyHash K P)) :
+    Gen.decrypt fuel (selfOf K P cache) c = liftR (decrypt K P c) := by
+  unfold Gen.decrypt
+  simp only [bind, pure, selfOf_hasPriv, selfOf_keyType, gen_raw_private_key_op_bytes_eq]
+  have hb1 : ((!true) = true) = False := by decide
+  have hb2 : (decide ("rsa" ≠ "rsa") = true) = False := by decide
+  simp only [hb1, hb2, if_false]
+  unfold decrypt
+  have hraw : rawPrivateKeyOpBytes K P c = .error .valueError ∨
+      ∃ dec, rawPrivateKeyOpBytes K P c = .ok dec ∧ dec.length = K.k := by
+    unfold rawPrivateKeyOpBytes
+    by_cases h1 : c.length ≠ K.k
+    · left; simp [h1]
+    · by_cases h2 : beDecode c ≥ K.n
+      · left; simp [h1, h2]
+      · right; exact ⟨beEncode K.k (P.privInt (beDecode c)), by simp [h1, h2], beEncode_length _ _⟩
+  rcases hraw with he | ⟨dec, hdec, hlen⟩
+  · rw [he]
+    rfl
+  · rw [hdec, liftR_ok]
+    have hat : PyE.attempt (Except.ok dec : PyE.M Bytes) PyE.Err.valueError = .ok (some dec) := rfl
+    rw [hat, ok_bind']
+    have hn : ((some dec).isNone = true) = False := by simp
+    simp only [hn, if_false]
+    have hgs : PyE.getSome (some dec) = (.ok dec : PyE.M Bytes) := rfl
+    rw [hgs, ok_bind']
+    -- the `_key_hash` cache: afterwards it holds SHA-256 of the private exponent
+    have hself : (if PyE.keyHashMissing (selfOf K P cache) = true then
+          Except.bind (PyE.numberToByteArray (selfOf K P cache).d (PyE.numBytes (selfOf K P cache).n)) fun x =>
+            Except.pure (PyE.setKeyHash (selfOf K P cache) ((selfOf K P cache).sha256 x))
+        else Except.pure (selfOf K P cache)) = (.ok (selfOf K P (some (keyHash K P))) : PyE.M PyE.RsaSelf) := by
+      simp only [selfOf_d, selfOf_n, numBytes_nat, numberToByteArray_nat, ok_bind', selfOf_sha]
+      have hnew : PyE.setKeyHash (selfOf K P cache) (P.sha256 (beEncode (numBytes K.n) K.d)) =
+          selfOf K P (some (keyHash K P)) := rfl
+      rw [hnew]
+      rcases hcache with h | h | h
+      · subst h; rfl
+      · subst h; rfl
+      · subst h
+        by_cases he : (keyHash K P).isEmpty = true
+        · have : PyE.keyHashMissing (selfOf K P (some (keyHash K P))) = true := he
+          simp only [this, if_true]; rfl
+        · have : PyE.keyHashMissing (selfOf K P (some (keyHash K P))) = false := by
+            show (keyHash K P).isEmpty = false
+            simpa using he
+          simp only [this, Bool.false_eq_true, if_false]; rfl
+    rw [hself, ok_bind']
+    have hgk : PyE.getKeyHash (selfOf K P (some (keyHash K P))) = (.ok (keyHash K P) : PyE.M Bytes) := rfl
+    rw [hgk, ok_bind']
+    simp only [selfOf_hmac, selfOf_n, numBytes_nat]
+    have e2048 : ((128 : Int) * 2 * 8) = ((128 * 2 * 8 : Nat) : Int) := by decide
+    have ek8 : ((numBytes K.n : Nat) : Int) * 8 = ((K.k * 8 : Nat) : Int) := by unfold Key.k; omega
+    have ek10 : ((numBytes K.n : Nat) : Int) - 10 = ((K.k - 10 : Nat) : Int) := by unfold Key.k at hk ⊢; omega
+    rw [e2048, ek8, ek10, gen_dec_prf_eq K P _ fuel _ _ _ h32 (by omega), gen_dec_prf_eq K P _ fuel _ _ _ h32 (by omega)]
+    obtain ⟨lr, hlr, _⟩ := decPrf_ok P.hmac (kdk K P c) lengthLabel 256 h32
+    obtain ⟨mr, hmr, hmrlen⟩ := decPrf_ok P.hmac (kdk K P c) messageLabel K.k h32
+    have e256 : 128 * 2 * 8 = 256 * 8 := by decide
+    have hkdk : P.hmac (keyHash K P) c = kdk K P c := rfl
+    have hl1 : ([108, 101, 110, 103, 116, 104] : Bytes) = lengthLabel := rfl
+    have hl2 : ([109, 101, 115, 115, 97, 103, 101] : Bytes) = messageLabel := rfl
+    rw [hkdk, hl1, hl2, e256, hlr, hmr, liftR_ok, liftR_ok, ok_bind', ok_bind']
+    -- length_mask, the candidate-length loop
+    rw [numBits_nat, lshift_one_nat, lift_some', ok_bind', shiftLeft_one_sub, lit0, zipSelf_iterBytes,
+      forInL_nat (fun hl : UInt8 × UInt8 => ((hl.1.toNat : Int), (hl.2.toNat : Int))) _
+        (synthStep (K.k - 10) ((1 <<< numBits (K.k - 10)) - 1)), ok_bind']
+    rotate_left
+    · intro hl t
+      simp only [fst_mk', snd_mk', shl_nat, ← Int.natCast_add, band_nat, ct_lt_eq, ct_lsb16_eq, lift_some', ok_bind',
+        bxor_65535_nat, bor_nat]
+      rfl
+    have hsl : List.foldl (synthStep (K.k - 10) ((1 <<< numBits (K.k - 10)) - 1)) 0 (pairs lr)
+        = synthLen (K.k - 10) lr := rfl
+    rw [hsl]
+    have hsb := synthLen_lt (K.k - 10) lr (by omega) (by omega)
+    -- the first two bytes, the separator scan
+    obtain ⟨b0, b1, rest, rfl⟩ : ∃ b0 b1 rest, dec = b0 :: b1 :: rest := by
+      match dec, hlen with
+      | [], h => simp at h; omega
+      | [_], h => simp at h; omega
+      | b0 :: b1 :: rest, _ => exact ⟨b0, b1, rest, rfl⟩
+    rw [next_enumerate2, ok_bind']
+    simp only [fst_mk', snd_mk']
+    rw [ct_nz_eq, lift_some', ok_bind', next_enumFrom1, ok_bind']
+    simp only [fst_mk', snd_mk']
+    rw [lit2, ct_neq_eq, lift_some', ok_bind']
+    simp only [bor_nat]
+    rw [forInL_enumFrom _ ?hscan rest 2, ok_bind']
+    case hscan =>
+      intro pos v e ms
+      simp only [fst_mk', snd_mk', lit10, ct_lt_eq, ct_nz_eq, ct_lsb16_eq, lift_some', ok_bind', bxor_one_nat,
+        band_nat, bor_nat, bxor_65535_nat]
+      rw [show ((pos : Int) + 1) = ((pos + 1 : Nat) : Int) from rfl, band_nat, bor_nat]
+      rfl
+    simp only [fst_mk', snd_mk']
+    generalize hsc : scan 2 (0 ||| ctIsNonZeroU32 b0.toNat ||| ctNeqU32 b1.toNat 2) 0 rest = sc
+    -- the selection of the returned message
+    have esub : ((numBytes K.n : Nat) : Int) - ((synthLen (K.k - 10) lr : Nat) : Int)
+        = ((K.k - synthLen (K.k - 10) lr : Nat) : Int) := by unfold Key.k at hsb ⊢; omega
+    simp only [ct_nz_eq, ct_lsb16_eq, ct_lsb8_eq, lift_some', ok_bind', bxor_one_nat, bor_nat, bxor_65535_nat,
+      bxor_255_nat, band_nat, esub, slice_from, select_eq]
+    -- the hand model computes the same value
+    have htail : decryptTail K P c (b0 :: b1 :: rest) = .ok
+        (selectBytes (ctLsbPropU8 (sc.fst ||| 1 ^^^ ctIsNonZeroU32 sc.snd))
+          (List.drop
+            (sc.snd &&& (65535 ^^^ ctLsbPropU16 (sc.fst ||| 1 ^^^ ctIsNonZeroU32 sc.snd)) |||
+              K.k - synthLen (K.k - 10) lr &&& ctLsbPropU16 (sc.fst ||| 1 ^^^ ctIsNonZeroU32 sc.snd))
+            (b0 :: b1 :: rest))
+          (List.drop
+            (sc.snd &&& (65535 ^^^ ctLsbPropU16 (sc.fst ||| 1 ^^^ ctIsNonZeroU32 sc.snd)) |||
+              K.k - synthLen (K.k - 10) lr &&& ctLsbPropU16 (sc.fst ||| 1 ^^^ ctIsNonZeroU32 sc.snd))
+            mr)) := by
+      unfold decryptTail
+      simp only [e256, hlr, hmr, bind, Except.bind, hsc]
+    rw [htail]
+    rfl
+
+
+example : Gen.decrypt 300 (selfOf exKey (exPrims exGoodEM) none) exCipher = .ok (some [0xaa, 0xbb, 0xcc, 0xdd, 0xee]) ∧
+    Gen.decrypt 300 (selfOf exKey (exPrims exGoodEM) none) (0 :: exCipher) = .ok none := by
+  constructor <;> decide +kernel
+
+/-- `RSAKeyExchange.processClientKeyExchange` as the source has it now: decrypt, then the
+    `not premasterSecret / len != 48 / version` cascade with the random substitute drawn before it —
+    exactly the hand model's `processClientKeyExchange` (whose result is never None). -/
+theorem gen_processClientKeyExchange_eq (K : Key) (P : Prims) (cache : Option Bytes) (fuel : Nat) (rand c : Bytes) (cv sv : Nat × Nat)
+    (h32 : ∀ k m, (P.hmac k m).length = 32) (hk : 11 ≤ K.k) (hk16 : K.k < 65536)
+    (hf : 256 ≤ fuel ∧ K.k ≤ fuel)
+    (hcache : cache = none ∨ cache = some [] ∨ cache = some (keyHash K P)) :
+    Gen.processClientKeyExchange fuel (kexOf K P cache rand cv sv) c =
+      liftR ((processClientKeyExchange K P rand cv sv c).map some) := by
+  unfold Gen.processClientKeyExchange processClientKeyExchange
+  simp only [bind, pure]
+  have hpk : (kexOf K P cache rand cv sv).privateKey = selfOf K P cache := rfl
+  rw [hpk, gen_decrypt_eq K P cache fuel c h32 hk hk16 hf hcache]
+  cases hd : decrypt K P c with
+  | error e => rfl
+  | ok dec =>
+    rw [liftR_ok, ok_bind']
+    have hr : (kexOf K P cache rand cv sv).random48 = rand := rfl
+    have hcv : (kexOf K P cache rand cv sv).clientVersion = ((cv.1 : Int), (cv.2 : Int)) := rfl
+    have hsv : (kexOf K P cache rand cv sv).serverVersion = ((sv.1 : Int), (sv.2 : Int)) := rfl
+    rw [hr, hcv, hsv]
+    match dec with
+    | none => rfl
+    | some [] => rfl
+    | some [_] => rfl
+    | some (v0 :: v1 :: rest) =>
+      have hf0 : PyE.falsyOpt (some (v0 :: v1 :: rest)) = false := rfl
+      have hl : PyE.lenOpt (some (v0 :: v1 :: rest)) = .ok (((v0 :: v1 :: rest).length : Nat) : Int) := rfl
+      have hg0 : PyE.getItemOpt (some (v0 :: v1 :: rest)) 0 = .ok (v0.toNat : Int) := rfl
+      have hg1 : PyE.getItemOpt (some (v0 :: v1 :: rest)) 1 = .ok (v1.toNat : Int) := rfl
+      simp only [hf0, hl, hg0, hg1, ok_bind', Bool.false_eq_true, if_false, substitutePremaster]
+      have hpair : ∀ (a b : Nat) (w : Nat × Nat), (((a : Int), (b : Int)) ≠ ((w.1 : Int), (w.2 : Int))) ↔ ((a, b) ≠ w) := by
+        intro a b w
+        obtain ⟨w1, w2⟩ := w
+        simp only [ne_eq, Prod.mk.injEq]
+        omega
+      have hd1 : decide (((v0.toNat : Int), (v1.toNat : Int)) ≠ ((cv.1 : Int), (cv.2 : Int)))
+          = decide ((v0.toNat, v1.toNat) ≠ cv) := decide_eq_decide.mpr (hpair _ _ _)
+      have hd2 : decide (((v0.toNat : Int), (v1.toNat : Int)) ≠ ((sv.1 : Int), (sv.2 : Int)))
+          = decide ((v0.toNat, v1.toNat) ≠ sv) := decide_eq_decide.mpr (hpair _ _ _)
+      rw [hd1, hd2]
+      by_cases h48 : (v0 :: v1 :: rest).length = 48
+      · have h48' : ¬ ((((v0 :: v1 :: rest).length : Nat) : Int) ≠ 48) := by omega
+        simp only [h48, h48', decide_false, Bool.false_eq_true, if_false, ne_eq, not_true_eq_false]
+        by_cases h1 : (v0.toNat, v1.toNat) = cv
+        · simp [h1, liftR, Except.map, Except.pure]
+        · by_cases h2 : (v0.toNat, v1.toNat) = sv
+          · simp [h1, h2, liftR, Except.map, Except.pure]
+          · simp [h1, h2, liftR, Except.map, Except.pure]
+      · have h48' : ((((v0 :: v1 :: rest).length : Nat) : Int) ≠ 48) := by omega
+        have h46 : ¬ rest.length = 46 := by simp at h48; omega
+        have h46' : ¬ ((rest.length : Int) + 1 + 1 = 48) := by omega
+        simp [h46, h46', liftR, Except.map, Except.pure]
+
+
+/-- **Totality of the source as it is now.** -/
+theorem gen_decrypt_total (K : Key) (P : Prims) (cache : Option Bytes) (fuel : Nat) (c : Bytes)
+    (h32 : ∀ k m, (P.hmac k m).length = 32) (hk : 11 ≤ K.k) (hk16 : K.k < 65536)
+    (hf : 256 ≤ fuel ∧ K.k ≤ fuel)
+    (hcache : cache = none ∨ cache = some [] ∨ cache = some (keyHash K P)) :
+    (Gen.decrypt fuel (selfOf K P cache) c = .ok none ↔ ¬ PubliclyValid K c) ∧
+    (PubliclyValid K c → ∃ m, Gen.decrypt fuel (selfOf K P cache) c = .ok (some m)) := by
+  rw [gen_decrypt_eq K P cache fuel c h32 hk hk16 hf hcache]
+  obtain ⟨h1, h2⟩ := decrypt_total K P c h32 hk hk16
+  constructor
+  · rw [← h1]
+    cases decrypt K P c with
+    | error e => simp [liftR]
+    | ok r => simp [liftR]
+  · intro hv
+    obtain ⟨m, hm⟩ := h2 hv
+    exact ⟨m, by rw [hm]; rfl⟩
+
+/-- **Valid padding gives the message**, for the source as it is now. -/
+theorem gen_decrypt_valid (K : Key) (P : Prims) (cache : Option Bytes) (fuel : Nat) (c ps m : Bytes)
+    (h32 : ∀ k m, (P.hmac k m).length = 32) (hk : 11 ≤ K.k) (hk16 : K.k < 65536)
+    (hf : 256 ≤ fuel ∧ K.k ≤ fuel)
+    (hcache : cache = none ∨ cache = some [] ∨ cache = some (keyHash K P))
+    (hc : PubliclyValid K c)
+    (hem : em K P c = 0 :: 2 :: (ps ++ 0 :: m)) (h8 : 8 ≤ ps.length) (hnz : ∀ b ∈ ps, b ≠ 0) :
+    Gen.decrypt fuel (selfOf K P cache) c = .ok (some m) := by
+  rw [gen_decrypt_eq K P cache fuel c h32 hk hk16 hf hcache,
+    decrypt_valid K P c ps m h32 hk hk16 hc hem h8 hnz]
+  rfl
+
+/-- **Uniform implicit rejection**, for the source as it is now: one function of the
+    key-derivation key gives the result for every malformed encoded message, whatever the defect. -/
+theorem gen_decrypt_invalid_uniform (K : Key) (sha256 : Bytes → Bytes) (hmac : Bytes → Bytes → Bytes)
+    (h32 : ∀ k m, (hmac k m).length = 32) (hk : 11 ≤ K.k) (hk16 : K.k < 65536) :
+    ∃ g : Bytes → Bytes, (∀ x, (g x).length ≤ K.k - 11) ∧
+      ∀ (privInt : Nat → Nat) (c : Bytes) (cache : Option Bytes) (fuel : Nat),
+        let P : Prims := { sha256 := sha256, hmac := hmac, privInt := privInt }
+        256 ≤ fuel ∧ K.k ≤ fuel → (cache = none ∨ cache = some [] ∨ cache = some (keyHash K P)) →
+        PubliclyValid K c → ¬ WellFormedEM (em K P c) →
+          Gen.decrypt fuel (selfOf K P cache) c = .ok (some (g (kdk K P c))) := by
+  obtain ⟨g, hg, hu⟩ := decrypt_invalid_uniform K sha256 hmac h32 hk hk16
+  refine ⟨g, hg, ?_⟩
+  intro privInt c cache fuel P hf hcache hv hnw
+  rw [gen_decrypt_eq K P cache fuel c h32 hk hk16 hf hcache, hu privInt c hv hnw]
+  rfl
+
+/-- **No dependence on the malformation at the key-exchange level**, for the source as it is now:
+    two ClientKeyExchange payloads that are not accepted give the random substitute, both. -/
+theorem gen_premaster_independent_of_defect (K : Key) (P : Prims) (cache : Option Bytes) (fuel : Nat)
+    (rand c1 c2 : Bytes) (cv sv : Nat × Nat)
+    (h32 : ∀ k m, (P.hmac k m).length = 32) (hk : 11 ≤ K.k) (hk16 : K.k < 65536)
+    (hf : 256 ≤ fuel ∧ K.k ≤ fuel)
+    (hcache : cache = none ∨ cache = some [] ∨ cache = some (keyHash K P))
+    (hr : rand.length = 48)
+    (h1 : ∀ dec, decrypt K P c1 = .ok dec → ¬ Accepted dec cv sv)
+    (h2 : ∀ dec, decrypt K P c2 = .ok dec → ¬ Accepted dec cv sv) :
+    Gen.processClientKeyExchange fuel (kexOf K P cache rand cv sv) c1 = .ok (some rand) ∧
+    Gen.processClientKeyExchange fuel (kexOf K P cache rand cv sv) c2 = .ok (some rand) := by
+  obtain ⟨e1, e2⟩ := premaster_independent_of_defect K P rand c1 c2 cv sv h32 hk hk16 hr h1 h2
+  rw [gen_processClientKeyExchange_eq K P cache fuel rand c1 cv sv h32 hk hk16 hf hcache,
+    gen_processClientKeyExchange_eq K P cache fuel rand c2 cv sv h32 hk hk16 hf hcache, e1, e2]
+  exact ⟨rfl, rfl⟩
+
+example : Gen.processClientKeyExchange 300 (kexOf exKey (exPrims exBadEM) none exRand (3, 3) (3, 3)) exCipher
+    = .ok (some exRand) := by decide +kernel
+
+/-- the translator understood every statement of the four functions (no poison was emitted) -/
+theorem gen_translation_complete :
+    Gen.translatorProblems = [] ∧ Gen.translated.all (fun x => x.2) = true ∧ Gen.translated.length = 4 := by
+  decide
+
+end Regenerated
 
 end Tls.RsaDec
 
